@@ -6,6 +6,10 @@ _NOTE = ("Bounded: holds for all values within the bounds recorded in the eviden
 _TECH = "symbolic execution of the real Python code on z3-backed proxy values (BV64/Float64/Real), branch decisions and obligations decided by z3, counterexamples replayed concretely"
 
 CLAIMS = {
+    "C02": {
+        "text": "Bounded symbolic model checking of the real socket's retry logic on a virtual-time loop: write faults on a solver-chosen subset of the first 4-5 writes, peer resets, refusals and reconnect latencies and lifetimes as z3 Reals (the solver places reconnects exactly at expiry); every frame instance at the console is counted and time-stamped: at most 1+retries instances, none at or after expiry, no re-send after a successful write, a failed idempotent message is first on the next connection.",
+        "note": _NOTE + " The API-level policy choice per public command is checked behaviourally in the same harness family (fault on the command's first write).", "technique": _TECH, "design_ref": "DESIGN.md section 6 C02",
+    },
     "C01": {
         "text": "Bounded symbolic model checking of the real socket send path on a virtual-time loop: 2-3 (quick) / up to 4 (thorough) sends at solver-chosen instants with solver-chosen lifetimes against a console that starts accepting at a solver-chosen instant (and optional back-pressure); every ordering class of the instants is one path; on each the bytes at the console must equal, frame for frame and in acceptance order, the reference framing of exactly the submitted messages that were within lifetime; write triples contiguous; all 36 message classes rotate through the sends; packet counter by one inductive step over a symbolic counter value plus a concrete 260-send run.",
         "note": _NOTE, "technique": _TECH, "design_ref": "DESIGN.md section 6 C01",
